@@ -86,52 +86,64 @@ def snapshot(cap: "Capture") -> Dict[str, Tuple[bool, Dict[str, Any], Dict[str, 
     return out
 
 
-def plain_run(gm: fx.GraphModule, xs: List[torch.Tensor], ups: List[torch.Tensor]):
+def backward_some(outs, ups, mode: str) -> None:
+    """mode: "all" = backward through every float output, "first" = only the first one, "none" = forward only."""
+    fl = [(o, u) for o, u in zip(outs, ups) if isinstance(o, torch.Tensor) and o.is_floating_point() and o.requires_grad]
+    if mode == "first":
+        fl = fl[:1]
+    if mode != "none" and fl:
+        torch.autograd.backward([o for o, _ in fl], [u for _, u in fl])
+
+
+def plain_run(gm: fx.GraphModule, xs: List[torch.Tensor], ups: List[torch.Tensor], mode: str = "all"):
     gm.zero_grad(set_to_none=True)
     cap = Capture(gm)
     ins = [x.clone().requires_grad_() for x in xs]
     outs = cap.run(*ins)
     outs = outs if isinstance(outs, tuple) else (outs,)
-    fl = [(o, u) for o, u in zip(outs, ups) if isinstance(o, torch.Tensor) and o.is_floating_point() and o.requires_grad]
-    if fl:
-        torch.autograd.backward([o for o, _ in fl], [u for _, u in fl])
+    backward_some(outs, ups, mode)
     return cap, ins, outs
 
 
-def trace_backend(rng: random.Random, n_ops: int) -> Optional[Dict[str, Any]]:
+def trace_backend(rng: random.Random, n_ops: int, modes: Tuple[str, ...] = ("all",)) -> Optional[List[Dict[str, Any]]]:
+    """One tracked callable, called once per entry of `modes` (a history of runs: the node metadata persists between
+    calls, so a later forward-only or partial-backward run must not report the previous run's backward metrics)."""
     from unit_scaling.transforms._track_scales import ScaleTrackingBackend
 
     gm, nin, nout = fxgen.random_tracked_module(rng, n_ops)
-    xs = fxgen.int_inputs(rng, nin, with_zeros=True)
     g = torch.Generator().manual_seed(rng.randrange(1 << 30))
-    ups = [torch.randint(-2, 3, fxgen.SHAPE, generator=g).float() for _ in range(nout)]
-    cap, pins, pouts = plain_run(gm, xs, ups)
-    snap = snapshot(cap)
-    pgrad = {k: (v.grad.clone() if v.grad is not None else None) for k, v in gm.named_parameters()}
-    gm.zero_grad(set_to_none=True)
     be = ScaleTrackingBackend()
-    f = be(gm, xs)
-    tins = [x.clone().requires_grad_() for x in xs]
-    touts = f(*tins)
-    touts = touts if isinstance(touts, tuple) else (touts,)
-    fl = [(o, u) for o, u in zip(touts, ups) if isinstance(o, torch.Tensor) and o.is_floating_point() and o.requires_grad]
-    if fl:
-        torch.autograd.backward([o for o, _ in fl], [u for _, u in fl])
-    same_out = len(touts) == len(pouts) and all(torch.equal(a, b) and a.dtype == b.dtype for a, b in zip(touts, pouts))
-    gsame = all((a.grad is None and b.grad is None) or (a.grad is not None and b.grad is not None and torch.equal(a.grad, b.grad)) for a, b in zip(tins, pins))
-    for k, v in gm.named_parameters():
-        a, b = v.grad, pgrad[k]
-        gsame = gsame and ((a is None and b is None) or (a is not None and b is not None and torch.equal(a, b)))
-    nodes = []
-    for n in be.graph.nodes:
-        if n.op == "output":
-            continue
-        isf, cf, cb = snap[n.name]
-        m = n.meta.get("metrics")
-        if cf.get("inexact") or cb.get("inexact"):
-            return None
-        nodes.append({"name": n.name, "float": bool(isf), "has": m is not None, "fwd": recorded(m.fwd if m else None, 0), "bwd": recorded(m.bwd if m else None, 0), "cf": cf, "cb": cb})
-    return {"kind": "track", "same_out": bool(same_out), "same_grad": bool(gsame), "nodes": nodes, "code": gm.code}
+    f = None
+    traces = []
+    for mode in modes:
+        xs = fxgen.int_inputs(rng, nin, with_zeros=True)
+        ups = [torch.randint(-2, 3, fxgen.SHAPE, generator=g).float() for _ in range(nout)]
+        cap, pins, pouts = plain_run(gm, xs, ups, mode)
+        snap = snapshot(cap)
+        pgrad = {k: (v.grad.clone() if v.grad is not None else None) for k, v in gm.named_parameters()}
+        gm.zero_grad(set_to_none=True)
+        if f is None:
+            f = be(gm, xs)
+        tins = [x.clone().requires_grad_() for x in xs]
+        touts = f(*tins)
+        touts = touts if isinstance(touts, tuple) else (touts,)
+        backward_some(touts, ups, mode)
+        same_out = len(touts) == len(pouts) and all(torch.equal(a, b) and a.dtype == b.dtype for a, b in zip(touts, pouts))
+        gsame = all((a.grad is None and b.grad is None) or (a.grad is not None and b.grad is not None and torch.equal(a.grad, b.grad)) for a, b in zip(tins, pins))
+        for k, v in gm.named_parameters():
+            a, b = v.grad, pgrad[k]
+            gsame = gsame and ((a is None and b is None) or (a is not None and b is not None and torch.equal(a, b)))
+        nodes = []
+        for n in be.graph.nodes:
+            if n.op == "output":
+                continue
+            isf, cf, cb = snap[n.name]
+            m = n.meta.get("metrics")
+            if cf.get("inexact") or cb.get("inexact"):
+                return None
+            nodes.append({"name": n.name, "float": bool(isf), "has": m is not None, "fwd": recorded(m.fwd if m else None, 0), "bwd": recorded(m.bwd if m else None, 0), "cf": cf, "cb": cb})
+        traces.append({"kind": "track", "same_out": bool(same_out), "same_grad": bool(gsame), "nodes": nodes, "code": f"run history {list(modes)}, this run: {mode}\n" + gm.code})
+    return traces
 
 
 class DynMod(nn.Module):
@@ -153,47 +165,57 @@ class DynMod(nn.Module):
         return d.sum() + (b * 2).sum()
 
 
-def trace_dynamo(rng: random.Random, variant: int) -> Optional[Dict[str, Any]]:
+def trace_dynamo(rng: random.Random, variant: int, modes: Tuple[str, ...] = ("all",)) -> Optional[List[Dict[str, Any]]]:
     from unit_scaling.transforms import track_scales
 
     torch.manual_seed(variant)
     mod = DynMod(variant)
-    x = fxgen.int_inputs(rng, 1)[0]
-    px = x.clone().requires_grad_()
-    pout = mod(px)
-    pout.backward()
-    pgrad = {k: v.grad.clone() for k, v in mod.named_parameters() if v.grad is not None}
     tm = track_scales(mod)
-    tx = x.clone()
-    tout = tm(tx)
-    tout.backward()
-    same_out = torch.equal(tout, pout)
-    same_grad = tx.grad is not None and torch.equal(tx.grad, px.grad) and all(torch.equal(v.grad, pgrad[k]) for k, v in tm.named_parameters() if k in pgrad)
-    # independent capture on the traced graph itself (un-instrumented execution of the same fx graph)
-    g = tm.scales_graph()
-    gm = fx.GraphModule(tm, g)
-    cap = Capture(gm)
-    cx = x.clone().requires_grad_()
-    feed = []
-    for n in g.nodes:
-        if n.op == "placeholder":   # Dynamo lifts parameters to placeholders
-            feed.append(tm.lin.weight.detach().clone().requires_grad_() if "parameters" in str(n.target) else cx)
-    cout = cap.run(*feed)
-    cout = cout[0] if isinstance(cout, tuple) else cout
-    cout.backward()
-    nodes = []
-    for n in g.nodes:
-        if n.op == "output":
-            continue
-        v = cap.vals.get(n.name)
-        isf = isinstance(v, torch.Tensor) and v.is_floating_point()
-        m = n.meta.get("metrics")
-        cf = sums(v) if isf else dict(ABSENT)
-        cb = sums(v.grad if (isf and v.requires_grad) else None)
-        if cf.get("inexact") or cb.get("inexact"):
-            return None
-        nodes.append({"name": n.name, "float": bool(isf), "has": m is not None, "fwd": recorded(m.fwd if m else None, 0), "bwd": recorded(m.bwd if m else None, 0), "cf": cf, "cb": cb})
-    return {"kind": "track", "same_out": bool(same_out), "same_grad": bool(same_grad), "nodes": nodes, "code": f"DynMod({variant})"}
+    traces = []
+    for mode in modes:
+        x = fxgen.int_inputs(rng, 1)[0]
+        px = x.clone().requires_grad_()
+        mod.zero_grad(set_to_none=True)
+        pout = mod(px)
+        if mode != "none":
+            pout.backward()
+        pgrad = {k: v.grad.clone() for k, v in mod.named_parameters() if v.grad is not None}
+        tm.zero_grad(set_to_none=True)
+        tx = x.clone()
+        tout = tm(tx)
+        if mode != "none":
+            tout.backward()
+        same_out = torch.equal(tout, pout)
+        same_grad = True
+        if mode != "none":
+            same_grad = tx.grad is not None and torch.equal(tx.grad, px.grad) and all(torch.equal(v.grad, pgrad[k]) for k, v in tm.named_parameters() if k in pgrad)
+        # independent capture on the traced graph itself (un-instrumented execution of the same fx graph)
+        g = tm.scales_graph()
+        gm = fx.GraphModule(tm, g)
+        cap = Capture(gm)
+        cx = x.clone().requires_grad_()
+        feed = []
+        for n in g.nodes:
+            if n.op == "placeholder":   # Dynamo lifts parameters to placeholders
+                feed.append(tm.lin.weight.detach().clone().requires_grad_() if "parameters" in str(n.target) else cx)
+        cout = cap.run(*feed)
+        cout = cout[0] if isinstance(cout, tuple) else cout
+        if mode != "none":
+            cout.backward()
+        nodes = []
+        for n in g.nodes:
+            if n.op == "output":
+                continue
+            v = cap.vals.get(n.name)
+            isf = isinstance(v, torch.Tensor) and v.is_floating_point()
+            m = n.meta.get("metrics")
+            cf = sums(v) if isf else dict(ABSENT)
+            cb = sums(v.grad if (isf and v.requires_grad) else None)
+            if cf.get("inexact") or cb.get("inexact"):
+                return None
+            nodes.append({"name": n.name, "float": bool(isf), "has": m is not None, "fwd": recorded(m.fwd if m else None, 0), "bwd": recorded(m.bwd if m else None, 0), "cf": cf, "cb": cb})
+        traces.append({"kind": "track", "same_out": bool(same_out), "same_grad": bool(same_grad), "nodes": nodes, "code": f"DynMod({variant}) run history {list(modes)}, this run: {mode}"})
+    return traces
 
 
 def trace_analyse(rng: random.Random, n_ops: int) -> Optional[Dict[str, Any]]:
@@ -250,13 +272,14 @@ def run(rep: Report, tier: str) -> None:
         rep.add_tlc(rs, with_cov=False)
     traces: List[Dict[str, Any]] = []
     skipped = 0
+    HIST = [("all",), ("all",), ("all", "none"), ("all", "first"), ("none", "all", "none"), ("first", "all")]
     for i in range(150 if quick else 1500):
-        t = trace_backend(rng, rng.randint(1, 7))
-        if t is None:
+        ts = trace_backend(rng, rng.randint(1, 7), HIST[i % len(HIST)])
+        if ts is None:
             skipped += 1
             continue
-        traces.append(t)
-        rep.case(("backend", i), nontrivial=len(t["nodes"]) >= 4)
+        traces += ts
+        rep.case(("backend", i), nontrivial=len(ts[0]["nodes"]) >= 4)
     for i in range(40 if quick else 400):
         t = trace_analyse(rng, rng.randint(1, 6))
         if t is None:
@@ -265,9 +288,9 @@ def run(rep: Report, tier: str) -> None:
         traces.append(t)
         rep.case(("analyse", i))
     for v in range(3 if quick else 12):
-        t = trace_dynamo(rng, v)
-        if t is not None:
-            traces.append(t)
+        ts = trace_dynamo(rng, v, [("all", "none"), ("all",), ("none", "all", "none")][v % 3])
+        if ts is not None:
+            traces += ts
             rep.case(("dynamo", v))
     rep.extra["graphs_skipped_values_out_of_exact_range"] = skipped
     payload = [{"kind": t["kind"], "same_out": t["same_out"], "same_grad": t["same_grad"],
